@@ -3,26 +3,12 @@ for the file-system calls of TreeTransform.apply(), and the TLC judge call."""
 import json
 import os
 import shutil
-import sys
 import time
 
 from vf import tlc
 
 FLAVOURS = {"bzr": "2a", "git": "git"}
 CTL = {"bzr": ".bzr", "git": ".git"}
-
-
-def deterministic_hashing(ctx):
-    """`check` puts PYTHONHASHSEED=0 into os.environ only after the interpreter has started, which does not change the
-    hash seed of the running process; TreeTransform iterates sets of trans-id strings (by_parent, _all_children), so which
-    conflict a resolver sees first - and even which of two same-named entries a PreviewTree lookup finds - would differ
-    from run to run.  Re-exec the check once with the seed in place."""
-    if sys.flags.hash_randomization:
-        ctx.cleanup()
-        os.environ["PYTHONHASHSEED"] = "0"
-        sys.stdout.flush()
-        sys.stderr.flush()
-        os.execv(sys.executable, [sys.executable, "-B"] + sys.argv)
 
 
 def tag(c, t):
